@@ -336,6 +336,8 @@ def replay(obligation, params, cex):
         return dict(reproduced=True, detail=f"bytes differ after parse+create for {d!r}"[:500], finding=fam)
     if d3 != d2:
         return dict(reproduced=True, detail="parse is not a fixpoint", finding=fam)
+    if clsname == "SuitEnvelopeTagged" and member_names(d) != member_names(d2):
+        return dict(reproduced=True, detail=f"integrated members named by the description {member_names(d)} vs named by parse of the created envelope {member_names(d2)}: a member was dropped")
     if not fidelity(area, d, d2):
         fid = None
         if area == "component_id":
